@@ -480,6 +480,8 @@ def body_instant(case):
         labels.append("within_20ms_of_midnight")
     if abs(ms - round(ms)) < 1e-6:
         labels.append("on_ms_grid")
+    if (sod % 60.0) > 59.99 or (sod % 60.0) < 0.01:
+        labels.append("within_10ms_of_a_whole_minute")
     if ov is not None:
         labels.append("override")
     if y < 1972:
@@ -500,6 +502,10 @@ def instant_cases():
         st.integers(1, 20000).map(lambda k: 86400.0 - k / 1000000.0),
         st.tuples(st.integers(0, 86399), st.sampled_from([0.0, 0.001, 0.0005, 0.999, 0.9995,
                                                            1e-4, 0.5])).map(lambda t: t[0] + t[1]),
+        # up to 10 ms before / after a whole minute (microsecond grid): where a sexagesimal
+        # read-back carries
+        st.tuples(st.integers(1, 1440), st.integers(1, 10000)).map(lambda t: t[0] * 60.0 - t[1] / 1e6),
+        st.tuples(st.integers(0, 1439), st.integers(0, 10000)).map(lambda t: t[0] * 60.0 + t[1] / 1e6),
         st.tuples(st.sampled_from([0, 1, 59, 60, 61, 3599, 3600, 43200, 86340, 86399]),
                   st.floats(0, 1, exclude_max=True)).map(lambda t: t[0] + t[1]))
     ym = st.one_of(st.tuples(st.integers(Y0, Y1), st.integers(1, 12)),
